@@ -33,7 +33,14 @@ RULE = ("layouts built from block-occupancy vectors over nr x nc grids of unit b
         "BlockShuffleSplit; partition_by_sum called directly on every array of length <= 5 with entries 0..4 "
         "(0..3 at length 6; quick: length <= 4, 0..2 at length 5) x every parts from 1 to length+1 and on random longer arrays; random layouts up to 12x12 "
         "blocks with empty and very uneven blocks, shape= or spacing=; a malformed stream (n_splits < 2 or larger than "
-        "the number of occupied blocks, balancing < 1, sizes out of range). Float test/train sizes whose exact "
+        "the number of occupied blocks, balancing < 1, sizes out of range). Reproducibility: for every case the folds "
+        "compared with the model are the first split() of a fresh instance on a C-ordered X, and the following must give "
+        "exactly the same folds: split() a 2nd (thorough: and 3rd) time on the SAME instance, a second fresh instance, "
+        "sklearn.base.clone of the used instance (split twice; safe=False, i.e. a deep copy, while the splitters have no "
+        "get_params), an instance built and used with another seed and then set_params(random_state=seed) (plain attribute "
+        "assignment while the splitters have no set_params), and X in other memory layouts (np.asfortranarray, transposed view of a 2 x n array, "
+        "strided column view of a wider array; block_split labels must be identical too) - thorough: all five variants on "
+        "every random/malformed case and two (rotating) on every exhaustive case; quick: one (rotating) per case. Float test/train sizes whose exact "
         "product with the number of blocks is within 1e-9 of an integer without being one are excluded (counted in "
         "EXTRA). A case is non-trivial when the cross-validator yields folds over >= 2 occupied blocks; distinct = "
         "distinct (labels, parameters, seed) tuples.")
@@ -45,7 +52,7 @@ ASSUMPTIONS = [
     "float imbalances |a/b - c/d| of distinct exact values keep their order (sample counts < 2000: distinct values differ by > 1e-13 relative); candidates tying exactly with different point ratios are reported as near-ties (agreement not required, statement still required)",
     "float test_size/train_size times the number of blocks: products within 1e-9 of an integer (not equal) are not generated (float ceil/floor quirk)",
 ]
-TRUSTED = ["python harness harness/c11.py (layout generator, oracle replay, warning capture, reproducibility comparison, Coq literal printing)"]
+TRUSTED = ["python harness harness/c11.py (layout generator, oracle replay, warning capture, comparison of the repeated-call / clone / set_params / memory-layout observations with the primary one, Coq literal printing)"]
 
 _EXCLUDED = {"float_size_quirk": 0}
 _STATS = {}
@@ -116,12 +123,23 @@ def _labels(vd, x, y, bargs):
     return [int(v) for v in vd.block_split((np.array(x), np.array(y)), region=None, adjust="spacing", **bargs)[1]]
 
 
-def _run_cv(make, X):
-    """('ok', warned, splits) | ('ValueError',) | ('other', name)"""
+def _construct(make, seed):
+    """the cross-validator object, or the outcome tuple if the constructor raised"""
+    try:
+        return make(seed)
+    except ValueError:
+        return ("ValueError",)
+    except Exception as exc:  # pragma: no cover
+        return ("other", type(exc).__name__)
+
+
+def _split(cv, X):
+    """one call of cv.split(X): ('ok', warned, splits) | ('ValueError',) | ('other', name)"""
+    if isinstance(cv, tuple):
+        return cv
     try:
         with warnings.catch_warnings(record=True) as w:
             warnings.simplefilter("always")
-            cv = make()
             splits = [([int(i) for i in tr], [int(i) for i in te]) for tr, te in cv.split(X)]
             warned = any(issubclass(i.category, UserWarning) and "Could not balance folds" in str(i.message) for i in w)
         return ("ok", warned, splits)
@@ -129,6 +147,87 @@ def _run_cv(make, X):
         return ("ValueError",)
     except Exception as exc:  # pragma: no cover
         return ("other", type(exc).__name__)
+
+
+VARIANTS = ["clone", "set_params", "fortran", "transposed", "strided"]
+
+
+def _layouts(x, y):
+    """the same n x 2 coordinates in other memory layouts"""
+    X = np.column_stack([np.array(x, dtype=float), np.array(y, dtype=float)])
+    wide = np.full((X.shape[0], 5), -7.5)
+    wide[:, 1] = X[:, 0]
+    wide[:, 3] = X[:, 1]
+    return {"fortran": np.asfortranarray(X),
+            "transposed": np.vstack([np.array(x, dtype=float), np.array(y, dtype=float)]).T,
+            "strided": wide[:, 1::2]}
+
+
+def _observe(vd, make, seed, x, y, X, bargs, labels, variants, ncalls=3):
+    """Primary observation A = first split() of a fresh instance on the C-ordered X, plus the
+    reproducibility checks: every other way of obtaining the folds for the same parameters and
+    random_state must give exactly A.  Returns (A, [names of the checks that failed])."""
+    from sklearn.base import clone
+    failed = []
+    cv = _construct(make, seed)
+    A = _split(cv, X)
+    # the SAME instance, split() again and again
+    for k in range(2, ncalls + 1):
+        if _split(cv, X) != A:
+            failed.append("same-instance-call-%d" % k)
+    # a fresh instance with the same parameters
+    if _split(_construct(make, seed), X) != A:
+        failed.append("fresh-instance")
+    if "clone" in variants and not isinstance(cv, tuple):
+        # a clone of the (already used) instance behaves like a freshly constructed object.
+        # (sklearn 1.9 cross-validators - sklearn's own KFold included - have no get_params, so
+        # clone(cv) raises TypeError for all of them; clone(..., safe=False) is the deep copy
+        # sklearn falls back to for such objects)
+        try:
+            c = clone(cv) if hasattr(cv, "get_params") else clone(cv, safe=False)
+        except Exception as exc:  # pragma: no cover
+            c = ("other", type(exc).__name__)
+        if _split(c, X) != A:
+            failed.append("clone")
+        if _split(c, X) != A:
+            failed.append("clone-call-2")
+    if "set_params" in variants and seed is not None:
+        # built (and used) with another seed, then set_params(random_state=seed)
+        other = seed + 1 if seed % 2 else 4242 + seed
+        cvo = _construct(make, other)
+        if not isinstance(cvo, tuple):
+            _split(cvo, X)
+            try:
+                if hasattr(cvo, "set_params"):
+                    cvo.set_params(random_state=seed)
+                else:       # what set_params does; sklearn 1.9 cross-validators do not have the method
+                    setattr(cvo, "random_state", seed)
+            except Exception as exc:  # pragma: no cover
+                cvo = ("other", type(exc).__name__)
+        if _split(cvo, X) != A:
+            failed.append("set_params-random_state")
+    lay = _layouts(x, y)
+    for name in ("fortran", "transposed", "strided"):
+        if name in variants:
+            Xv = lay[name]
+            try:
+                lv = [int(v) for v in vd.block_split((Xv[:, 0], Xv[:, 1]), region=None, adjust="spacing", **bargs)[1]]
+            except Exception:  # pragma: no cover
+                lv = None
+            if lv != labels:
+                failed.append("labels-%s-layout" % name)
+            if _split(_construct(make, seed), Xv) != A:
+                failed.append("folds-%s-layout" % name)
+    if A[0] == "other":
+        failed.append("unexpected-exception")
+    return A, failed
+
+
+def _variants_for(spec):
+    if spec.get("all_variants"):
+        return VARIANTS
+    k = spec.get("variant", 0)
+    return [VARIANTS[(k + 2 * i) % len(VARIANTS)] for i in range(spec.get("nvariants", 1))]
 
 
 def _bargs_src(bargs):
@@ -147,12 +246,11 @@ def _do_kfold(spec):
     bargs = _blockargs(spec)
     labels = _labels(vd, x, y, bargs)
     nb = len(set(labels))
-    kw = dict(n_splits=spec["n_splits"], shuffle=spec["seed"] is not None, random_state=spec["seed"],
-              balance=spec["balance"])
-    make = lambda: vd.BlockKFold(**bargs, **kw)
-    obs = _run_cv(make, X)
-    obs2 = _run_cv(make, X)
-    repro_ok = obs == obs2 and obs[0] != "other"
+    kw = dict(n_splits=spec["n_splits"], shuffle=spec["seed"] is not None, balance=spec["balance"])
+    make = lambda seed: vd.BlockKFold(random_state=seed, **bargs, **kw)
+    obs, failed = _observe(vd, make, spec["seed"], x, y, X, bargs, labels, _variants_for(spec),
+                           ncalls=spec.get("ncalls", 2))
+    repro_ok = not failed
     if spec["seed"] is None:
         shuf = "None"
         perm = None
@@ -173,9 +271,10 @@ def _do_kfold(spec):
            "occupancy": list(spec["occ"]), "labels": labels, "n_splits": spec["n_splits"],
            "shuffle": spec["seed"] is not None, "random_state": spec["seed"], "balance": spec["balance"],
            "shuffle_oracle": perm}
-    out = list(obs) + [{"reproducible": repro_ok}]
+    out = list(obs) + [{"reproducible": repro_ok, "failed_reproducibility_checks": failed}]
     repro = ("import verde, numpy as np; X = np.column_stack([%r, %r]); "
-             "print(list(verde.BlockKFold(%s, n_splits=%d, shuffle=%r, random_state=%r, balance=%r).split(X)))"
+             "cv = verde.BlockKFold(%s, n_splits=%d, shuffle=%r, random_state=%r, balance=%r); "
+             "print([[te.tolist() for _, te in cv.split(X)] for call in (1, 2, 3)])"
              % (x, y, _bargs_src(bargs), spec["n_splits"], spec["seed"] is not None, spec["seed"], spec["balance"]))
     return (inp, out, term, repro, spec["kind"], obs[0] == "ok" and nb >= 2)
 
@@ -205,12 +304,11 @@ def _do_bss(spec):
         s = Fraction(ts) + Fraction(tr)
         if s != 1 and abs(s - 1) < Fraction(1, 10 ** 9):
             return "quirk"
-    kw = dict(n_splits=spec["n_splits"], test_size=ts, train_size=tr, random_state=spec["seed"],
-              balancing=spec["balancing"])
-    make = lambda: vd.BlockShuffleSplit(**bargs, **kw)
-    obs = _run_cv(make, X)
-    obs2 = _run_cv(make, X)
-    repro_ok = obs == obs2 and obs[0] != "other"
+    kw = dict(n_splits=spec["n_splits"], test_size=ts, train_size=tr, balancing=spec["balancing"])
+    make = lambda seed: vd.BlockShuffleSplit(random_state=seed, **bargs, **kw)
+    obs, failed = _observe(vd, make, spec["seed"], x, y, X, bargs, labels, _variants_for(spec),
+                           ncalls=spec.get("ncalls", 2))
+    repro_ok = not failed
     # oracle: the permutations ShuffleSplit's random state draws, checked against the real ShuffleSplit
     perms = []
     ndraw = spec["n_splits"] * max(spec["balancing"], 0)
@@ -240,9 +338,10 @@ def _do_bss(spec):
            "occupancy": list(spec["occ"]), "labels": labels, "n_splits": spec["n_splits"],
            "test_size": ts, "train_size": tr, "random_state": spec["seed"], "balancing": spec["balancing"],
            "permutation_oracle": perms if len(perms) <= 12 else "%d permutations of range(%d)" % (len(perms), nb)}
-    out = list(obs[:1]) + list(obs[2:]) + [{"reproducible": repro_ok}]
+    out = list(obs[:1]) + list(obs[2:]) + [{"reproducible": repro_ok, "failed_reproducibility_checks": failed}]
     repro = ("import verde, numpy as np; X = np.column_stack([%r, %r]); "
-             "print(list(verde.BlockShuffleSplit(%s, n_splits=%d, test_size=%r, train_size=%r, random_state=%r, balancing=%d).split(X)))"
+             "cv = verde.BlockShuffleSplit(%s, n_splits=%d, test_size=%r, train_size=%r, random_state=%r, balancing=%d); "
+             "print([[te.tolist() for _, te in cv.split(X)] for call in (1, 2, 3)])"
              % (x, y, _bargs_src(bargs), spec["n_splits"], ts, tr, spec["seed"], spec["balancing"]))
     return (inp, out, term, repro, spec["kind"], obs[0] == "ok" and nb >= 2)
 
@@ -476,6 +575,17 @@ def _pbs(tier, rnd):
 
 
 def _specs(tier, rnd):
+    specs = _specs0(tier, rnd)
+    for k, sp in enumerate(specs):
+        if sp["cv"] != "pbs":
+            sp["variant"] = k // 2      # consecutive specs differ in balance on/off: give both the same variant
+            sp["all_variants"] = tier == "thorough" and "exhaustive" not in sp["kind"]
+            sp["nvariants"] = 2 if tier == "thorough" else 1
+            sp["ncalls"] = 3 if tier == "thorough" else 2
+    return specs
+
+
+def _specs0(tier, rnd):
     specs = []
     specs += _pbs(tier, rnd)
     specs += _kfold_exhaustive(tier, rnd)
